@@ -17,13 +17,24 @@ publication guard, and a quiescent disk after a failed final sync — these are 
 per case: the shim reports whether it delivered an error and the driver demands that `commit` returned it.
 `failed_commit_is_atomic` / `failed_header_write_is_atomic` are instances of C02's kill / crash theorems;
 the content specific to C11 is `FaultConsistent` on the regenerated order and its two negative witnesses.
+AT THE LEVEL OF FILE BYTES (`Model/CommitFile.lean`, `Proofs/CommitFile*.lean`, regenerated layout and checksum order):
+* `failed_data_write_shows_previous_state`: whatever a commit that failed before its header write left in the
+  file — any of its data writes, complete, short or not at all — `open` (same handle through the map, or a reopen)
+  shows exactly the previous state, as long as no write touched a page that state owns (evaluated per commit);
+* `failed_header_write_shows_old_or_new`: whatever a failed or short header write left inside the header page,
+  `open` shows exactly the previous or exactly the new state, provided the page does not verify as a third
+  record (NoTornCollision, evaluated on every short write the shim delivers: the reopened state must be one of
+  the two).
 Tie: every write / fsync index of real commits is failed through the LD_PRELOAD shim (EIO, ENOSPC after
 a short write), extension through RLIMIT_FSIZE; afterwards the visible state must be exactly before or
 after, the Lean file checker and DB::check must pass, three more commits and a reopen must refine the
 specification.
 -/
 import Jamm.Proofs.IoLemmas
+import Jamm.Proofs.CommitFileAtomic
 import Jamm.Gen.Steps
+import Jamm.Gen.Layout
+import Jamm.Gen.HashOrder
 set_option linter.unusedSectionVars false
 
 namespace Jamm.Props.C11
@@ -57,5 +68,45 @@ that reports an error can already have made the header visible -/
 theorem publish_after_write_insufficient :
     FaultConsistent [.freeOldFreelist, .allocFreelist, .grow, .writeData, .sync, .strictCheck, .writeMeta, .publishFreelist, .flush, .sync] = false := by
   decide
+
+/-! ## At the level of file bytes -/
+
+/-- a commit that failed before its header write: any byte source that keeps the previous state's bytes and both
+header pages shows exactly the previous state -/
+theorem failed_data_write_shows_previous_state (pagesize : Nat)
+    (hrec : Gen.layout.pgPtr + Gen.layout.metaSize ≤ pagesize) (ov : Nat → Nat) (s c : Src) (slot : Nat)
+    (hslot : slot = 0 ∨ slot = 1) (old : Opened)
+    (h : Committed Gen.layout Gen.hashOrder pagesize ov s slot old)
+    (k : KeepsState pagesize ov s c slot old)
+    (hother : Src.AgreeOn s c ((1 - slot) * pagesize) ((1 - slot) * pagesize + pagesize))
+    (fuel : Nat) (hf : old.view.weight ≤ fuel) :
+    openFile Gen.layout Gen.hashOrder pagesize fuel c = some old := by
+  have hE : Layout.WFEnc Gen.layout = true := by decide
+  have hL : Layout.WFMeta Gen.layout = true := by decide
+  have hhdr : Gen.layout.pageSize ≤ pagesize := Nat.le_trans (by decide) hrec
+  refine crash_shows_old Gen.layout Gen.hashOrder pagesize (Layout.WF.of _ hE) (Layout.WFM.of _ hL) hrec hhdr ov s c
+    slot hslot old h.1 k ?_ fuel hf
+  rw [slotValid_agree Gen.layout Gen.hashOrder pagesize (Layout.WFM.of _ hL) hrec s c (1 - slot) k.1 hother]
+  exact h.2.2
+
+/-- a header write that failed or came up short: whatever is now inside the new header page, as long as it does
+not verify as a third record, `open` shows exactly the previous or exactly the new state -/
+theorem failed_header_write_shows_old_or_new (pagesize : Nat)
+    (hrec : Gen.layout.pgPtr + Gen.layout.metaSize ≤ pagesize) (ov ov' : Nat → Nat) (s1 d : Src) (slot : Nat)
+    (hslot : slot = 0 ∨ slot = 1) (old new : Opened)
+    (hold : Holds Gen.layout Gen.hashOrder pagesize ov s1 slot old) (habove : ∀ r ∈ old.runs ov, 2 ≤ r.1)
+    (hst : StoredV Gen.layout pagesize ov' s1 new.view)
+    (hfl : ∃ p, decodePage Gen.layout s1 pagesize new.hdr.freelistPage = .ok p ∧ p.body = .freelist new.free ∧
+      p.overflow = new.flOverflow)
+    (c : HeaderOK Gen.layout Gen.hashOrder pagesize ov' s1 old new)
+    (hsz : d.size = s1.size)
+    (hout : ∀ i, i < (1 - slot) * pagesize ∨ (1 - slot) * pagesize + pagesize ≤ i → d.get i = s1.get i)
+    (hno : slotValid Gen.layout Gen.hashOrder d pagesize (1 - slot) = none ∨
+      slotValid Gen.layout Gen.hashOrder d pagesize (1 - slot) = some new.hdr)
+    (fuel : Nat) (hfo : old.view.weight ≤ fuel) (hfn : new.view.weight ≤ fuel) :
+    openFile Gen.layout Gen.hashOrder pagesize fuel d = some old ∨
+    openFile Gen.layout Gen.hashOrder pagesize fuel d = some new :=
+  incomplete_header_write_old_or_new Gen.layout Gen.hashOrder pagesize (by decide) (by decide) hrec
+    (Nat.le_trans (by decide) hrec) ov ov' s1 d slot hslot old new hold habove hst hfl c hsz hout hno fuel hfo hfn
 
 end Jamm.Props.C11
